@@ -188,6 +188,16 @@ func splitQueries(dst []*subquery, source string, scope map[string]string, expr 
 			leftSubquery := len(dst) - 1
 
 			var err error
+			if leftSubquery < dstStart && namesResults(op.Right) {
+				// The right-hand side names results ("as"), possibly like the table the left side reads.
+				// Read the table before any such name gets its new meaning.
+				lastSubquery, err = chainSubquery(dst, dstStart, source, expr.Source)
+				if err != nil {
+					return nil, err
+				}
+				dst = append(dst, lastSubquery)
+				leftSubquery = len(dst) - 1
+			}
 			dst, err = splitQueries(dst, source, scope, op.Right)
 			if err != nil {
 				return nil, err
@@ -266,6 +276,20 @@ func splitQueries(dst []*subquery, source string, scope map[string]string, expr 
 	}
 
 	return dst, nil
+}
+
+// namesResults reports whether expr (or a join nested in it) contains an "as" operator.
+// The test does not look at the names themselves:
+// which subqueries a query consists of depends on its shape only.
+func namesResults(expr *parser.TabularExpr) bool {
+	found := false
+	parser.Walk(expr, func(n parser.Node) bool {
+		if _, ok := n.(*parser.AsOperator); ok {
+			found = true
+		}
+		return !found
+	})
+	return found
 }
 
 // chainSubquery returns a new subquery
